@@ -52,7 +52,9 @@ class Adapter:
                 "hold": {r: c.resources[r].hold_count for r in self.res},
                 "active": sorted(c.active_operations),
                 "acquired": {o: (sorted(c.active_operations[o].acquired_resources) if o in c.active_operations else []) for o in self.ops},
-                "edges": sorted([wt, b, r] for wt, deps in c.dependency_graph.edges.items() for (b, r) in deps)}
+                "edges": sorted([wt, b, r] for wt, deps in c.dependency_graph.edges.items() for (b, r) in deps),
+                "pri": {o: (c.active_operations[o].priority if o in c.active_operations else self.prio(o)) for o in self.ops},
+                "lockpri": {r: c.resources[r].owner_priority for r in self.res}}
 
     def key(self, w):
         c = w["c"]      # the recorded graph's insertion order decides which rotation / victim the DFS reports: keep it in the key
